@@ -421,6 +421,97 @@ theorem C19_each_sidecar_refuses (s : St) (n c : Name) (hc : c ∈ candidates n)
   exact ⟨c', fun f => by rw [h1 f], fun ro f => by rw [h2 ro f], fun f => by rw [h1 f],
     fun ro f => by rw [h2 ro f]⟩
 
+/-! ### the effects listed for a step are exactly what changes the directory -/
+
+/-- the directory after a step is the directory before it with the step's effect list applied: the model's
+    state and the event stream compared with inotify cannot drift apart -/
+theorem C19_effects_explain_dir (s : St) (op : Op) :
+    (step s op).1.dir = applyAll s.dir (step s op).2.1 := by
+  cases op with
+  | create n f =>
+    simp only [step]
+    cases hg : (if guard_create then ensureSingleFile s.dir n else none) with
+    | some cand => simp [applyAll]
+    | none =>
+      have h : add n s.dir = applyAll s.dir (creatIfAbsent s.dir n) := by
+        unfold creatIfAbsent
+        by_cases hn : n ∈ s.dir
+        · simp [hn, applyAll, add_of_mem]
+        · simp [hn, applyAll, Eff.apply]
+      cases f <;> simp [applyAll, h]
+  | «open» n ro f =>
+    simp only [step]
+    split
+    · simp [applyAll]
+    · split
+      · simp [applyAll]
+      · cases f <;> simp [applyAll]
+  | call n cl =>
+    simp only [step]
+    split <;> simp [applyAll]
+  | drop n dirty st =>
+    simp only [step]
+    split <;> simp [applyAll]
+  | forget n =>
+    simp only [step]
+    split <;> simp [applyAll]
+  | doctor n lock rounds ok =>
+    simp only [step]
+    split
+    · simp [applyAll]
+    · split
+      · simp [applyAll]
+      · split <;> simp [applyAll]
+  | ext e => simp [step, applyAll]
+
+/-! ### the library's own temp is never mistaken for a sidecar -/
+
+private theorem short_suffix_ne {P Q r sfx : List Char} (hr : r.all Char.isAlphanum = true)
+    (hl : sfx.length ≤ r.length) (c : Char) (rest : List Char) (hs : sfx = c :: rest)
+    (hc : c.isAlphanum = false) : P ++ r ≠ Q ++ sfx := by
+  intro h
+  have hsplit : r = r.take (r.length - sfx.length) ++ r.drop (r.length - sfx.length) :=
+    (List.take_append_drop _ _).symm
+  rw [hsplit, ← List.append_assoc] at h
+  have hlen : (r.drop (r.length - sfx.length)).length = sfx.length := by
+    simp only [List.length_drop]; omega
+  have := (List.append_inj' h hlen).2
+  have hmem : c ∈ r := by
+    have : c ∈ r.drop (r.length - sfx.length) := by rw [this, hs]; exact List.mem_cons_self
+    exact List.mem_of_mem_drop this
+  have := (List.all_eq_true.mp hr) c hmem
+  simp [hc] at this
+
+private theorem journal_suffix_ne {P Q r : List Char} (c : Char) (hr : r.length = 6) :
+    P ++ ['.'] ++ r ≠ Q ++ (c :: 'j' :: ['o', 'u', 'r', 'n', 'a', 'l']) := by
+  intro h
+  have h' : (P ++ ['.']) ++ r = (Q ++ [c, 'j']) ++ ['o', 'u', 'r', 'n', 'a', 'l'] := by
+    simpa [List.append_assoc] using h
+  have := (List.append_inj' h' (by simp [hr])).1
+  have hrev := congrArg List.reverse this
+  simp at hrev
+
+/-- **the staging temp `.<name>.<6 alphanumerics>` is not a sidecar candidate of ANY memory name** — a
+    temp that is visible for a moment (or left behind by an OS fault) never makes `create`/`open` refuse -/
+theorem C19_temp_never_a_sidecar (n m : Name) (r : List Char) (hr : validSuffix r = true) :
+    tmpName n r ∉ candidates m := by
+  have hv : r.length = 6 ∧ r.all Char.isAlphanum = true := by
+    simpa [validSuffix, tmpSuffixLen] using hr
+  obtain ⟨hlen, hall⟩ := hv
+  have ht : tmpName n r = ('.' :: n ++ ['.']) ++ r := by simp [tmpName, tmpLead, tmpSep]
+  rw [C19_candidates, ht]
+  intro hmem
+  simp only [List.mem_cons, List.not_mem_nil, or_false] at hmem
+  rcases hmem with h | h | h | h | h | h | h | h
+  · exact short_suffix_ne (P := '.' :: n ++ ['.']) (Q := m) hall (by simp [hlen]) '-' _ rfl (by decide) h
+  · exact short_suffix_ne (P := '.' :: n ++ ['.']) (Q := m) hall (by simp [hlen]) '-' _ rfl (by decide) h
+  · exact short_suffix_ne (P := '.' :: n ++ ['.']) (Q := m) hall (by simp [hlen]) '-' _ rfl (by decide) h
+  · exact journal_suffix_ne (P := '.' :: n) (Q := m) '-' hlen (by simpa [L] using h)
+  · exact short_suffix_ne (P := '.' :: n ++ ['.']) (Q := '.' :: m) hall (by simp [hlen]) '.' _ rfl (by decide) h
+  · exact short_suffix_ne (P := '.' :: n ++ ['.']) (Q := '.' :: m) hall (by simp [hlen]) '.' _ rfl (by decide) h
+  · exact short_suffix_ne (P := '.' :: n ++ ['.']) (Q := '.' :: m) hall (by simp [hlen]) '.' _ rfl (by decide) h
+  · exact journal_suffix_ne (P := '.' :: n) (Q := '.' :: m) '.' hlen (by simpa [L] using h)
+
 /-! ## non-vacuity -/
 
 /-- executable form of `Untampered` (for checking concrete histories) -/
